@@ -112,6 +112,21 @@ def monOp (op : String) (args : List String) : Option String :=
     let (same, ts) ← pBit ts
     let (aligned, _) ← pBit ts
     some (if !same then "viol C16-static" else if !aligned then "viol C16-aligned" else "ok")
+  | "mon_pool_wf" => do
+    let (ty, ts) ← pTok args
+    let (amp, ts) ← pNat ts
+    let (n, ts) ← pNat ts
+    let (denoms, ts) ← pRepeat pTok n ts
+    let (ndec, ts) ← pNat ts
+    let (nf, ts) ← pNat ts
+    let (fees, _) ← pRepeat pNat nf ts
+    some (verdict (monPoolWf (ty == "cp") amp denoms ndec fees))
+  | "mon_pools_unique" => do
+    let (n, ts) ← pNat args
+    let (xs, _) ← pRepeat pTok (2 * n) ts
+    let ids := (List.range n).filterMap fun i => xs[2 * i]?
+    let lps := (List.range n).filterMap fun i => xs[2 * i + 1]?
+    some (if hasDup ids then "viol C16-duplicate-id" else if hasDup lps then "viol C16-duplicate-lp" else "ok")
   | "mon_pools_kept" => do
     let (n, _) ← pNat args
     some (if n == 0 then "ok" else "viol C16-removed")
@@ -217,6 +232,28 @@ def monOp (op : String) (args : List String) : Option String :=
   | "mon_pos_changed" => do
     let (own, _) ← pBit args
     some (if own then "ok" else "viol C08-foreign-change")
+  | "mon_auth_fp" => do
+    -- C15, farm / position level: who may do what
+    let (v, ts) ← pTok args
+    let (ok, ts) ← pBit ts
+    let (isOwner, ts) ← pBit ts
+    let (isFarmOwner, ts) ← pBit ts
+    let (isPosOwner, ts) ← pBit ts
+    let (isPm, _) ← pBit ts
+    let allowed := match v with
+      | "expandfarm" => isFarmOwner
+      | "closefarm" => isFarmOwner || isOwner
+      | "createpos_for" => isPosOwner || isPm
+      | "expandpos" => isPosOwner || isPm
+      | _ => isPosOwner
+    some (if ok && !allowed then "viol C15-unauthorised-accepted"
+      else if !ok && allowed then "viol C15-authorised-rejected" else "ok")
+  | "mon_rev" => do
+    -- C12 reverse quote: `ret` is what the implementation pays for quote + 1
+    let (xs, _) ← pRepeat pNat 6 args
+    match xs with
+    | [_x, _y, ask, fees, _quoted, ret] => some (verdict (monRev ask fees ret))
+    | _ => none
   | "mon_single_lock" => do
     let (own, _) ← pBit args
     some (if own then "ok" else "viol C14-locks-for-other")
